@@ -158,9 +158,11 @@ func (rt *GraphicsPlatform) Push() {
 		return
 	}
 	var el any
-	if len(rt.elements) == 1 {
+	if len(rt.elements) == 1 && !(rt.attr != defaultAttr && hasOwnAttr(rt.elements[0])) {
 		el = rt.elements[0]
 	} else {
+		// also for a single element that carries its own attributes, such as the
+		// background of clear or a grid: the pen style must not overwrite them
 		el = &Group{Elements: rt.elements}
 	}
 	if rt.attr != defaultAttr {
@@ -172,6 +174,18 @@ func (rt *GraphicsPlatform) Push() {
 
 	rt.SVG.Elements = append(rt.SVG.Elements, el)
 	rt.elements = nil
+}
+
+// hasOwnAttr reports whether an element has been created with attributes
+// of its own that differ from the pen style.
+func hasOwnAttr(el any) bool {
+	switch el := el.(type) {
+	case *Rect:
+		return el.Attr != Attr{}
+	case *Group:
+		return el.Attr != Attr{}
+	}
+	return false
 }
 
 // Move sets the current cursor position.
